@@ -65,6 +65,9 @@ pub enum FaultKind {
     /// position belongs to a signal the test does not know (the device lists it instead of
     /// the test signal the layout names there) - a consistent layout, legal
     PermanentForeign(usize),
+    /// every answer ends with one more entry: a signal the test does not know that has the
+    /// NAME of layout entry p but another width (a board that dumps all its pins: `Q(1) ... Q(8)`)
+    PermanentAlias(usize),
     /// value override at layout position
     Value(usize, OutVal),
 }
@@ -88,6 +91,14 @@ pub struct DutSpec {
     /// whatever signals they describe (a driver that owns its signals may do that - the
     /// answer borrows from `&mut self`)
     pub in_place: bool,
+    /// (with `in_place`) the table is filled front to back on even calls and back to front on
+    /// odd calls: every answer lists the same signals in the same order, but the `Signal`
+    /// behind entry k lives at another address from call to call, and the address that held
+    /// one signal in the previous answer holds another one now
+    pub alternate_memory: bool,
+    /// (> 1) the table- and counter-driven outputs move on only every `hold` calls, so that
+    /// consecutive answers are regularly identical (also identical `Z`/`X`)
+    pub hold: u32,
 }
 
 /// largest answer an `in_place` driver keeps in its fixed table
@@ -174,6 +185,11 @@ impl DutModel {
                     s.kind = SigKind::Out;
                     s
                 }),
+                FaultKind::PermanentAlias(p) => base(*p).map(|mut s| {
+                    s.bits = if s.bits >= 32 { s.bits - 3 } else { s.bits + 7 };
+                    s.kind = SigKind::Out;
+                    s
+                }),
                 FaultKind::SubstBits(p) => base(*p).map(|mut s| {
                     s.bits = if s.bits == 1 { 2 } else { s.bits - 1 };
                     s
@@ -210,6 +226,11 @@ impl DutModel {
         let (sig, beh) = &self.spec.layout[pos];
         let id = self.layout_ids[pos] as u64;
         let seed = self.spec.seed;
+        let call = if self.spec.hold > 1 && matches!(beh, SigBeh::Table(_) | SigBeh::Counter(..)) {
+            call / self.spec.hold as u64
+        } else {
+            call
+        };
         match beh {
             SigBeh::Tagged => OutVal::Num(
                 TAG_CALL * call as i64 + TAG_SIG * (id as i64 % 1000) + (seed % 1000) as i64,
@@ -282,7 +303,10 @@ impl DutModel {
             .faults
             .iter()
             .enumerate()
-            .filter(|(_, f)| f.at_call == call || matches!(f.kind, FaultKind::PermanentForeign(_)))
+            .filter(|(_, f)| {
+                f.at_call == call
+                    || matches!(f.kind, FaultKind::PermanentForeign(_) | FaultKind::PermanentAlias(_))
+            })
             .collect();
         for (_, f) in &faults {
             if f.kind == FaultKind::Error && f.at_call == call {
@@ -349,6 +373,15 @@ impl DutModel {
                     if *p < n {
                         ans[*p].1 = *v;
                     }
+                }
+                FaultKind::PermanentAlias(_) => {}
+            }
+        }
+        // (appended last, whatever else happened to the answer)
+        for (fi, f) in &faults {
+            if let FaultKind::PermanentAlias(_) = f.kind {
+                if let Some(x) = self.foreign_of(*fi) {
+                    ans.push((SigId::Foreign(x), OutVal::Num(5)));
                 }
             }
         }
@@ -527,7 +560,17 @@ impl DutCore {
 
     fn realise(&mut self, ans: Vec<(SigId, OutVal)>) -> Vec<OutputEntry<'_>> {
         if self.model.spec.in_place && ans.len() <= IN_PLACE_CAPACITY {
-            // rewrite the table in place: element k now describes the k-th reported signal
+            // rewrite the table in place: element slot(k) now describes the k-th reported signal
+            let n = ans.len();
+            let flip = self.model.spec.alternate_memory && self.calls % 2 == 0;
+            let slot = |k: usize| if flip { n - 1 - k } else { k };
+            if self.table.len() != n {
+                let filler = self.own.first().or(self.extra.first()).cloned();
+                self.table.truncate(n);
+                while self.table.len() < n {
+                    self.table.push(filler.clone().expect("an answer entry needs a signal"));
+                }
+            }
             for (k, (id, _)) in ans.iter().enumerate() {
                 let sig = match id {
                     SigId::Test(i) => {
@@ -541,18 +584,14 @@ impl DutCore {
                     }
                     SigId::Foreign(x) => self.extra[*x as usize].clone(),
                 };
-                if k < self.table.len() {
-                    self.table[k] = sig;
-                } else {
-                    self.table.push(sig);
-                }
+                self.table[slot(k)] = sig;
             }
-            self.table.truncate(ans.len());
+            let table = &self.table;
             return ans
                 .into_iter()
-                .zip(self.table.iter())
-                .map(|((_, v), signal)| OutputEntry {
-                    signal,
+                .enumerate()
+                .map(|(k, (_, v))| OutputEntry {
+                    signal: &table[slot(k)],
                     value: to_output_value(v),
                 })
                 .collect();
@@ -697,6 +736,7 @@ impl FaultKind {
             FaultKind::SubstBits(_) => "substBits",
             FaultKind::SubstKind(_) => "substKind",
             FaultKind::PermanentForeign(_) => "permanentForeign",
+            FaultKind::PermanentAlias(_) => "permanentAlias",
             FaultKind::Value(..) => "value",
         }
     }
@@ -712,6 +752,7 @@ impl FaultKind {
             | FaultKind::SubstName(p)
             | FaultKind::SubstBits(p)
             | FaultKind::SubstKind(p)
+            | FaultKind::PermanentAlias(p)
             | FaultKind::PermanentForeign(p) => a.push(J::u(*p)),
             FaultKind::Swap(p, q) => {
                 a.push(J::u(*p));
@@ -742,6 +783,7 @@ impl FaultKind {
             "substBits" => FaultKind::SubstBits(p(1)?),
             "substKind" => FaultKind::SubstKind(p(1)?),
             "permanentForeign" => FaultKind::PermanentForeign(p(1)?),
+            "permanentAlias" => FaultKind::PermanentAlias(p(1)?),
             "swap" => FaultKind::Swap(p(1)?, p(2)?),
             "value" => FaultKind::Value(
                 p(1)?,
@@ -764,6 +806,8 @@ impl DutSpec {
             .set("seed", J::i(self.seed))
             .set("overrides_write_input", J::Bool(self.overrides_write))
             .set("in_place_signal_table", J::Bool(self.in_place))
+            .set("table_memory_order_alternates", J::Bool(self.alternate_memory))
+            .set("hold_answers_for_calls", J::i(self.hold))
             .set(
                 "faults",
                 J::arr(&self.faults, |f| {
@@ -805,6 +849,14 @@ impl DutSpec {
             in_place: match j.get("in_place_signal_table") {
                 Some(b) => b.as_bool()?,
                 None => false,
+            },
+            alternate_memory: match j.get("table_memory_order_alternates") {
+                Some(b) => b.as_bool()?,
+                None => false,
+            },
+            hold: match j.get("hold_answers_for_calls") {
+                Some(v) => v.as_u64()? as u32,
+                None => 1,
             },
             faults,
         })
